@@ -927,7 +927,9 @@ func verifyRaw(clause string, m *msggen.Message, sub *twin, raw, trailerSection 
 		set := map[string]bool{}
 		for _, val := range values {
 			for _, o := range strings.Split(val, ",") {
-				if o = strings.ToLower(strings.TrimSpace(o)); o != "" {
+				// (an HTTP/1.0 message without keep-alive closes the connection
+				// whether or not it says so: "close" is not compared there)
+				if o = strings.ToLower(strings.TrimSpace(o)); o != "" && !(o == "close" && m.Spec.Proto10) {
 					set[o] = true
 				}
 			}
